@@ -261,7 +261,7 @@ fn run_c15(cli: &Cli) -> (Value, Vec<Violation>) {
         }
     };
     // (a) round trip of grammar values
-    let vals = values(if thorough { 3 } else { 2 }, if thorough { 3 } else { 2 }, thorough, if thorough { 300_000 } else { 12_000 });
+    let vals = values(if thorough { 3 } else { 2 }, if thorough { 3 } else { 2 }, thorough, if thorough { 60_000 } else { 12_000 });
     let mut n_round = 0usize;
     let mut distinct = std::collections::HashSet::new();
     for v in &vals {
